@@ -237,6 +237,8 @@ def run(pid, tier, ev=None, vd=None, finish=True):
                         nrep += 1
                         if nrep <= 3:
                             vd.nonconformance(f"replayed model behaviour of {rc['prog']} (order {''.join(str(s[0]) for s in rc['sched'])}): replies {got}, model says {want}")
+        if nrep_checked == 0:
+            raise vlib.ToolError("no replayed model behaviour had its replies compared (vacuous spec -> code binding)")
         if pid == "C10":
             # "a write whose streamed bytes do not match its declared hash or LENGTH changes no such path": single sessions of
             # the real server (the HubSession pieces that are such writes), alone and followed by a read
